@@ -143,6 +143,22 @@ def str_helpers(fx, b):
     nodes = list(F.walk(b["body"]))
     for cb in fx.closures_of(b["path"]):
         nodes += list(F.walk(cb["body"]))
+    # ... and the private, loop-free helpers this function delegates to (e.g. an extracted `remapped_file(member, frame)`)
+    seen_h = set()
+    todo = list(nodes)
+    while todo:
+        n0 = todo.pop()
+        if n0.get("k") == "Call" and "fn" in n0:
+            t0 = fx.by_dp.get(n0["fn"].get("dp"))
+            if t0 and t0 in fx.bodies and t0 not in seen_h and fx.bodies[t0]["krate"] == "proguard" and fx.bodies[t0]["kind"] in ("Fn", "AssocFn") \
+                    and not fx.bodies[t0].get("reachable_pub") and not S.has_loop(fx.bodies[t0]) and len(seen_h) < 6:
+                tb0 = fx.bodies[t0]
+                is_role = len(tb0.get("inputs", [])) == 1 and "str" in tb0["inputs"][0] and tb0.get("output", "").startswith("std::option::Option<&")
+                if not is_role:
+                    seen_h.add(t0)
+                    extra = list(F.walk(tb0["body"]))
+                    nodes += extra
+                    todo += extra
     for n in nodes:
         if n.get("k") == "Call" and "fn" in n:
             tgt = fx.by_dp.get(n["fn"].get("dp"))
